@@ -1264,6 +1264,14 @@ class Converter:
                 "this is not supported.",
             )
         loop_state_vars = sorted(vars_def_in_loop.intersection(exposed_uses | live_out))
+        if not loop_state_vars:
+            # An ONNX Loop needs at least one loop-carried value; a loop that assigns nothing
+            # that is read in a later iteration or after the loop computes nothing.
+            self._fail(
+                loop_stmt,
+                "The loop has no effect: no variable assigned in its body is used "
+                "in a later iteration or after the loop.",
+            )
         scan_outputs = []  # TODO
         outputs = loop_state_vars + scan_outputs
 
